@@ -111,15 +111,17 @@ fn main() {
         }
         let r = run_subcheck(prop.id, sc, thorough, seed, threads, scale, &known.sigs);
         eprintln!(
-            "  {}/{}: cases={} nontrivial={} distinct={} ood={} known={} worst_log2={:.2} {:.1}s{}",
+            "  {}/{}: cases={}+{} nontrivial={} distinct={} ood={} known={} worst_log2={:.2} (random phase {:.2}) {:.1}s{}",
             prop.id,
             sc.name,
             r.stats.cases,
+            r.stats.climb_evals,
             r.stats.nontrivial,
             r.distinct_nontrivial,
             r.stats.ood,
             r.stats.known.values().sum::<u64>(),
             r.stats.worst_margin,
+            r.stats.margin_before_climb,
             r.wall_s,
             if r.failure.is_some() { "  ** VIOLATION **" } else { "" }
         );
@@ -173,7 +175,7 @@ fn main() {
     let mut all_exhaustive = !results.is_empty();
     for r in &results {
         let sc = prop.subchecks.iter().find(|s| s.name == r.name).unwrap();
-        evaluations += r.stats.cases;
+        evaluations += r.stats.cases + r.stats.climb_evals;
         distinct += r.distinct_nontrivial;
         if !r.exhaustive {
             all_exhaustive = false;
@@ -193,6 +195,7 @@ fn main() {
                 "known_finding_hits": r.stats.known.values().sum::<u64>(),
                 "worst_log2_err_over_bound": if r.stats.worst_margin.is_finite() { json!((r.stats.worst_margin * 100.0).round() / 100.0) } else { Value::Null },
                 "exhaustive": r.exhaustive,
+                "targeted_search": if r.stats.climb_evals > 0 { json!({"evaluations": r.stats.climb_evals, "improvements": r.stats.climb_improvements, "worst_log2_before": (r.stats.margin_before_climb * 100.0).round() / 100.0, "worst_log2_after": (r.stats.worst_margin * 100.0).round() / 100.0}) } else { Value::Null },
                 "wall_s": (r.wall_s * 100.0).round() / 100.0,
                 "classes": Value::Object(lab),
                 "violation": r.failure.as_ref().map(|f| f.detail.clone()),
